@@ -17,6 +17,9 @@ def run(patch, prop, s, tier='quick'):
 
 
 RUN_TAG = os.environ.get('FINAL_EVAL_RUN', '')
+# checks whose subject overlaps a property's (tried right after the property's own quick tier)
+STATIC_HINTS = {'C01': ['C12', 'C11'], 'C02': ['C06', 'C04'], 'C04': ['C05', 'C17'], 'C05': ['C15', 'C04'], 'C08': ['C13'], 'C09': ['C17', 'C03'],
+                'C10': ['C14'], 'C11': ['C04'], 'C13': ['C08'], 'C15': ['C07', 'C05'], 'C19': ['C10', 'C08']}
 
 
 def one(d):
@@ -43,6 +46,9 @@ def one(d):
                     h = h.split(':')[0]
                     if h != pid and h not in hints:
                         hints.append(h)
+            for h in STATIC_HINTS.get(pid, []):
+                if h not in hints:
+                    hints.append(h)
             for p in hints:
                 l2 = run(patch, p, secs)
                 res[p] = l2
@@ -55,7 +61,7 @@ def one(d):
             res[pid + ':thorough'] = l3
             if 'exit=1' in l3:
                 caught.append(pid + ':thorough')
-        if not caught:
+        if not caught and not os.environ.get('FINAL_EVAL_NO_FALLBACK'):
             for p in FALLBACK:
                 if p == pid or p in res:
                     continue
